@@ -510,6 +510,7 @@ impl Server {
             let left = matches!(wakeup.op_type, super::connection::BlockingOp::BLPop);
             self.log_blocking_pop(wakeup.db, left, &wakeup.key);
             
+            let mut served = false;
             // Try to update connection state - use try_with_connection to avoid deadlock
             if let Some(result) = self.connections.with_connection(wakeup.conn_id, |conn| -> Result<()> {
                 // Only wake if still in blocked state
@@ -528,11 +529,18 @@ impl Server {
                     
                     // Return connection to authenticated state
                     conn.state = ConnectionState::Authenticated;
+                    served = true;
                 }
                 Ok(())
             }) {
                 // Execute the result and ignore any connection errors
                 let _ = result;
+            }
+            
+            // A served client waits for nothing any more: drop its registrations on the other keys of a
+            // multi-key BLPOP/BRPOP, which would otherwise swallow the next element pushed to them
+            if served {
+                let _ = self.blocking_manager.unregister_client(wakeup.db, wakeup.conn_id);
             }
         }
         // If value is None (list was empty), the client should be timed out normally
